@@ -34,7 +34,10 @@ def _same_entries(A, B, states, count):
                 return "item %d register %s vs %s" % (i, a[1:3], b[1:3])
             k = map_ref.same_canon(a[3], b[3], states)
         else:
-            if map_ref.same_canon(a[1], b[1], states) != "equal" or a[2] != b[2]:
+            kp = map_ref.same_canon(a[1], b[1], states)
+            if kp != "equal":
+                count("pointer-" + kp)       # the base mentions values the algebra rewrote (inside mods): compared by value
+            if kp == "different" or a[2] != b[2]:
                 return "item %d pointer" % i
             if a[4] != b[4]:
                 return "item %d byte order" % i
@@ -48,16 +51,34 @@ def _same_entries(A, B, states, count):
 def _same_zones(A, B, states, count):
     A = {k: v for k, v in A.items() if v}
     B = {k: v for k, v in B.items() if v}
-    if set(A) != set(B):
+    # zone keys are canonical bases; a base that mentions values the algebra rewrote is matched by value
+    pairs, restB = [], dict(B)
+    for ka in A:
+        if ka in restB:
+            pairs.append((ka, ka))
+            del restB[ka]
+            continue
+        found = None
+        if ka != "None":
+            for kb in restB:
+                if kb != "None" and map_ref.same_canon(json.loads(ka), json.loads(kb), states) != "different":
+                    found = kb
+                    break
+        if found is None:
+            return "zone keys %s vs %s" % (sorted(A), sorted(B))
+        count("zone-key-by-value")
+        pairs.append((ka, found))
+        del restB[found]
+    if restB:
         return "zone keys %s vs %s" % (sorted(A), sorted(B))
-    for k in A:
-        if [x[0] for x in A[k]] != [x[0] for x in B[k]]:
-            return "zone %s offsets" % k
-        for x, y in zip(A[k], B[k]):
+    for ka, kb in pairs:
+        if [x[0] for x in A[ka]] != [x[0] for x in B[kb]]:
+            return "zone %s offsets" % ka
+        for x, y in zip(A[ka], B[kb]):
             kk = map_ref.same_canon(x[1], y[1], states)
             count("zone-byte-" + kk)
             if kk == "different":
-                return "zone %s byte at %d" % (k, x[0])
+                return "zone %s byte at %d" % (ka, x[0])
     return None
 
 
